@@ -5,7 +5,7 @@ use crate::codec::Enc;
 use crate::ctx::{hex_trunc, Ctx, Tier};
 use crate::gen::notes::{emit, gen_model, ALIGNS};
 use crate::reference::notes::{typed, walk, RefNote, RefTyped};
-use elf::endian::{AnyEndian, BigEndian, EndianParse, LittleEndian};
+use elf::endian::{AnyEndian, BigEndian, LittleEndian};
 use elf::note::{Note, NoteIterator};
 
 pub const DEF: PropDef = PropDef { id: "C14", strata, run, setup, canaries: &["panic"] };
